@@ -105,6 +105,15 @@ class C03(PureCheck):
                 continue
             seen.add(key)
             yield {"op": "stream", "k1": list(k1), "k2": list(k2), "enc": enc}
+        # end to end over a pipe (a paste: everything has arrived before the first request): letters with one
+        # multi-byte keypress placed at every offset around the 1024-byte read boundary, and short bursts
+        for enc in encs:
+            seqs = [b"\x1b[A", b"\x1b[15~", b"\x1bOP", b"\x1b[1;10A"] + (["é".encode(), "日".encode(), "😀".encode()] if enc == "utf8" else [])
+            for K in seqs:
+                pads = list(range(1016, 1027)) + [3, 12, 2040, 2047] if tier == "thorough" or K in seqs[:2] or len(K) == 4 else [1022, 1023]
+                for pad in pads:
+                    items = [bytes([97 + j % 26]) for j in range(pad)] + [K] + [bytes([65 + j % 26]) for j in range(12)]
+                    yield {"op": "pipe", "items": [list(x) for x in items], "enc": enc}
         # scalar values
         cps = [0x20, 0x7E, 0x7F, 0x80, 0x7FF, 0x800, 0xFFF, 0x1000, 0xD7FF, 0xE000, 0xFFFD, 0xFFFF, 0x10000, 0x3FFFF, 0x40000, 0xFFFFF, 0x100000, 0x10FFFF]
         if tier == "quick":
@@ -119,6 +128,10 @@ class C03(PureCheck):
         T = self.tables
         if inp["op"] == "node":
             return T.node_event(inp["buf"], inp["enc"])
+        if inp["op"] == "pipe":
+            ev = dict(inp)
+            ev.update(keylib.run_pipe(T, [bytes(x) for x in inp["items"]], inp["enc"], self.pipe))
+            return ev
         if inp["op"] == "stream":
             ev = dict(inp)
             k1, k2, enc = bytes(inp["k1"]), bytes(inp["k2"]), inp["enc"]
@@ -153,6 +166,8 @@ class C03(PureCheck):
             return ("node", tuple(ev["buf"]), ev["enc"])
         if ev["op"] == "stream":
             return ("stream", tuple(ev["bytes"]), ev["enc"])
+        if ev["op"] == "pipe":
+            return ("pipe", len(ev["items"]), tuple(max(ev["items"], key=len)), ev["enc"])
         return ("scalar", ev["cp"])
 
     def case_class(self, ev, v):
@@ -160,6 +175,8 @@ class C03(PureCheck):
             buf = ev["buf"]
             kind = "root" if not buf else ("esc-subtree" if buf[0] == 27 else "utf8-subtree")
             return f"node:{kind}:{ev['enc']}"
+        if ev["op"] == "pipe":
+            return "pipe:" + ev["enc"]
         if ev["op"] == "stream":
             k1, k2 = bytes(ev["k1"]), bytes(ev["k2"])
             esc_prefix = k1 in self.tables.events.KEYMAP_PREFIXES
